@@ -75,6 +75,9 @@ def wrap_inputs(rng, ds, hostile=True):
                                                   index=gen.hostile_index(n, gen.pick(rng, gen.INDEX_KINDS), rng))
     kinds = ["list", "ndarray", "series", "df", "col"] if hostile else ["ndarray"]
     y = gen.as_vec(ds.y, gen.pick(rng, kinds), rng, name="label")
+    if isinstance(y, np.ndarray) and hostile:
+        # binary labels arrive in whatever integer / boolean / float dtype the caller's pipeline produced
+        y = y.astype(gen.pick(rng, [np.int64, np.int8, np.uint8, bool, np.float32, np.float64, np.int64]))
     g = gen.as_vec(ds.g, gen.pick(rng, [k for k in kinds if k != "col"] or kinds), rng, name="grp")
     c = None if ds.c is None else gen.as_vec(ds.c, gen.pick(rng, [k for k in kinds if k != "col"] or kinds), rng, name="ctl")
     return X, y, g, c
@@ -90,14 +93,19 @@ def load(moment, X, y, g, c):
 class FixedPredictor:
     """A 'classifier' that ignores X and returns a prescribed vector (in a chosen container)."""
 
-    def __init__(self, vec, container="ndarray"):
-        self.vec, self.container = np.asarray(vec, dtype=float), container
+    def __init__(self, vec, container="ndarray", hostile_kind="reversed"):
+        self.vec, self.container, self.hostile_kind = np.asarray(vec, dtype=float), container, hostile_kind
 
     def __call__(self, X):
         if self.container == "series":
             return pd.Series(self.vec)
         if self.container == "col":
             return self.vec.reshape(-1, 1)
+        if self.container == "series_hostile":
+            # a pandas-aware predictor: Series whose index is not 0..n-1 in order (rows must still be paired by position)
+            n = len(self.vec)
+            idx = np.arange(n)[::-1] if self.hostile_kind == "reversed" else (np.roll(np.arange(n), 1) if self.hostile_kind == "rolled" else np.arange(n) + 100)
+            return pd.Series(self.vec, index=idx)
         if self.container == "same_array":
             return self.vec  # a predictor that hands out its own stored score array, every time the same object
         return self.vec.copy()
